@@ -31,7 +31,8 @@ inductive XExpr
   | un (op : UnOp) (e : XExpr)
   | bin (op : BinOp) (l r : XExpr)
   | call (f : String) (args : XArgs)
-  | fld (c : String) (f : String)             -- stage S5: `instance.variable`
+  | fld (c : String) (f : String)             -- stages S5/S3: `instance.variable`, `struct.field`
+  | idx (a : String) (i : XExpr)              -- stage S3: `array[index]`
 /-- `Vec<CallArg>`: optional formal name, whether it was written with `=>`, the expression. -/
 inductive XArgs
   | nil
@@ -69,6 +70,8 @@ inductive XStmt
   | assign (x : String) (e : XExpr)
   | expr (e : XExpr)                                   -- `Stmt::Expr` (a call as a statement)
   | fbcall (c : String) (args : XArgs)                 -- stage S5: `instance(args);`
+  | assignIdx (a : String) (i : XExpr) (e : XExpr)     -- stage S3: `a[i] := e;`
+  | assignFld (s : String) (f : String) (e : XExpr)    -- stage S3: `s.f := e;`
   | ite (c : XExpr) (t : XBlock) (elifs : XElifs) (el : XBlock)
   | case (sel : XExpr) (brs : XBranches) (el : XBlock)
   | for (x : String) (s e : XExpr) (step : Option XExpr) (body : XBlock)
@@ -119,10 +122,24 @@ structure FbDef where
   vars : List Local
   body : XBlock
 
+/-- `value/types.rs: ArrayValue` (one dimension, elementary elements) / `StructValue` (flat). -/
+inductive Agg
+  | arr (lo hi : Int) (elems : List Val)
+  | str (fields : Env)
+  deriving Repr, Inhabited
+
+/-- Declaration of an aggregate PROGRAM variable. -/
+inductive AggDecl
+  | arr (lo hi : Int) (elem : Ty)
+  | str (tyName : String) (fields : List (String × Ty))
+  deriving Repr, Inhabited
+
 structure XProgram where
   name : String := "P"
   funcs : List FuncDef
   fbs : List FbDef := []
+  /-- stage S3: array and struct variables of the PROGRAM, declaration order -/
+  aggs : List (String × AggDecl) := []
   decls : List VarDecl
   /-- FB instance variables of the PROGRAM: (variable, FUNCTION_BLOCK type) -/
   insts : List (String × String) := []
@@ -156,7 +173,25 @@ structure XStore where
   frames : List Frame := []
   /-- variables of the FB instances, keyed by the PROGRAM variable that holds the instance -/
   insts : List (String × Env) := []
+  /-- stage S3: array / struct variables of the PROGRAM -/
+  aggs : List (String × Agg) := []
   deriving Repr, Inhabited
+
+def getAgg (σ : XStore) (a : String) : Option Agg := (σ.aggs.find? (fun p => p.1 = a)).map (·.2)
+
+def setAgg (σ : XStore) (a : String) (v : Agg) : XStore :=
+  { σ with aggs := σ.aggs.map fun p => if p.1 = a then (p.1, v) else p }
+
+/-- `eval/expr/access.rs: index_to_i64` — ULINT is cast with `as i64`. -/
+def indexToI64 : Val → M Int
+  | .i .ulint x => pure (if x ≤ i64Max then x else x - 18446744073709551616)
+  | .i _ x => pure x
+  | .b _ => fault .TypeMismatch .indexNotInt
+
+/-- `array_offset` for one dimension: bounds check, then the offset. -/
+def arrayOffset (lo hi : Int) (iv : Val) : M Nat := do
+  let n ← indexToI64 iv
+  if n < lo ∨ n > hi then fault .IndexOutOfBounds .indexBounds else pure (n - lo).toNat
 
 def instVars (σ : XStore) (c : String) : Option Env :=
   (σ.insts.find? (fun p => p.1 = c)).map (·.2)
@@ -286,13 +321,42 @@ def evalX (ds : Defs) : Nat → Ctl → XStore → XExpr → XRes Val
           | (σ2, .error s) => (σ2, .error s)
           | (σ2, .ok b) => (σ2, applyBinary op a b)
     | .fld c f =>
-      -- `read_field(Value::Instance(id), f)` on a PROGRAM variable holding an FB instance
-      match instVars σ c with
-      | none => (σ, fault .UndefinedVariable .readName)
-      | some e =>
-        match lookup f e with
+      -- `read_field` on a PROGRAM variable holding a struct (field names compared as written:
+      -- **case-sensitive**) or an FB instance
+      match (if ctl.cur.isNone then getAgg σ c else none) with
+      | some (.str fields) =>
+        match lookup f fields with
         | some v => (σ, pure v)
-        | none => (σ, fault .UndefinedField .readName)
+        | none => (σ, fault .UndefinedField .fieldName)
+      | some (.arr _ _ _) => (σ, fault .TypeMismatch .fieldOfNonStruct)
+      | none =>
+        match instVars σ c with
+        | none =>
+          match readNameC ctl.cur σ c with
+          | .error s => (σ, .error s)
+          | .ok _ => (σ, fault .TypeMismatch .fieldOfNonStruct)
+        | some e =>
+          match lookup f e with
+          | some v => (σ, pure v)
+          | none => (σ, fault .UndefinedField .fieldName)
+    | .idx a i =>
+      -- `Expr::Index`: the array value first, then the index, then `read_indices`
+      match (if ctl.cur.isNone then getAgg σ a else none) with
+      | some (.arr lo hi elems) =>
+        match evalX ds fuel ctl σ i with
+        | (σ1, .error s) => (σ1, .error s)
+        | (σ1, .ok iv) =>
+          match arrayOffset lo hi iv with
+          | .error s => (σ1, .error s)
+          | .ok off =>
+            match elems[off]? with
+            | some v => (σ1, pure v)
+            | none => (σ1, fault .TypeMismatch .indexBounds)
+      | some (.str _) => (σ, fault .TypeMismatch .indexOfNonArray)
+      | none =>
+        match readNameC ctl.cur σ a with
+        | .error s => (σ, .error s)
+        | .ok _ => (σ, fault .TypeMismatch .indexOfNonArray)
     | .call f args =>
       match findFunc ds.funcs f with
       | none =>
@@ -445,6 +509,38 @@ def execXStmt (ds : Defs) : Nat → Ctl → XStore → XStmt → XRes XFlow
       match evalX ds fuel ctl σ e with
       | (σ1, .error st) => (σ1, .error st)
       | (σ1, .ok _) => (σ1, .ok .cont)
+    | .assignIdx a i e =>
+      -- value, then `read_name(a)`, the index, `write_indices` (element stored **as is**), `write_name`
+      match evalX ds fuel ctl σ e with
+      | (σ1, .error st) => (σ1, .error st)
+      | (σ1, .ok v) =>
+        match (if ctl.cur.isNone then getAgg σ1 a else none) with
+        | some (.arr lo hi elems) =>
+          match evalX ds fuel ctl σ1 i with
+          | (σ2, .error st) => (σ2, .error st)
+          | (σ2, .ok iv) =>
+            match arrayOffset lo hi iv with
+            | .error st => (σ2, .error st)
+            | .ok off => (setAgg σ2 a (.arr lo hi (elems.set off v)), .ok .cont)
+        | some (.str _) => (σ1, fault .TypeMismatch .indexOfNonArray)
+        | none =>
+          match readNameC ctl.cur σ1 a with
+          | .error st => (σ1, .error st)
+          | .ok _ => (σ1, fault .TypeMismatch .indexOfNonArray)
+    | .assignFld s f e =>
+      match evalX ds fuel ctl σ e with
+      | (σ1, .error st) => (σ1, .error st)
+      | (σ1, .ok v) =>
+        match (if ctl.cur.isNone then getAgg σ1 s else none) with
+        | some (.str fields) =>
+          match lookup f fields with
+          | some _ => (setAgg σ1 s (.str (insert f v fields)), .ok .cont)
+          | none => (σ1, fault .UndefinedField .fieldName)
+        | some (.arr _ _ _) => (σ1, fault .TypeMismatch .fieldOfNonStruct)
+        | none =>
+          match readNameC ctl.cur σ1 s with
+          | .error st => (σ1, .error st)
+          | .ok _ => (σ1, fault .TypeMismatch .fieldOfNonStruct)
     | .fbcall c args =>
       match (ds.instTy.lookup c).bind (findFb ds.fbs) with
       | none =>
@@ -581,7 +677,13 @@ def FbDef.initVars (fb : FbDef) : Env :=
 def XProgram.initStore (p : XProgram) : XStore :=
   { vars := p.decls.map fun d => (d.name, d.initVal),
     insts := p.insts.map fun (c, t) =>
-      (c, match findFb p.fbs t with | some fb => fb.initVars | none => []) }
+      (c, match findFb p.fbs t with | some fb => fb.initVars | none => []),
+    -- `default_value_for_type_id`: elements / fields get the TYPE default (declared initial
+    -- values of struct fields are ignored)
+    aggs := p.aggs.map fun (a, d) =>
+      (a, match d with
+        | .arr lo hi t => Agg.arr lo hi (List.replicate (hi - lo + 1).toNat t.default)
+        | .str _ fields => Agg.str (fields.map fun (f, t) => (f, t.default))) }
 
 structure XRunState where
   store : XStore
